@@ -625,3 +625,53 @@ def k1_handler_label(res, tier):
                 r.checks.remove((lab, ok, info))
     _panics(res, results, 'C04.K1.handler_label')
     summarize_paths(res, e, results, lambda r: r.info if isinstance(r.info, dict) else None, key_prefix='C04.K1b:', unwind_ok=False)
+
+
+# ---------------------------------------------------------------------------------------------- K6 errors raised by a catch filter
+F44_SRC = ('fn f() {\n  try {\n    raise Error("x");\n  } catch e: Later {\n    print("caught");\n  }\n}\ntry {\n  f();\n} catch e: Error {\n  print("outer");\n}\n'
+           'class Later : Error {}\nprint("end");\n')
+F44_REPLAY = dict(kind='lay', source=F44_SRC, expect_stdout='outer\nend\n')
+
+
+@obligation('C04.K6.error_while_unwinding', 'C04', programs=('vm',), also=('C16',))
+def k6_error_while_unwinding(res, tier):
+    """Vm::set_error (every raise: op_raise, native errors, runtime_error) on a fiber that is unwinding, i.e. while the clauses of the
+    innermost handler are being evaluated (between the jump to the catch label and FinishUnwind): the new error must not be delivered
+    to that same handler again, so the handler is discarded before the search restarts; on a running fiber the handlers are untouched"""
+    P = get_program('vm')
+    e, W = _world(P)
+    f = P.lookup('vm::Vm::set_error')
+    st_def = P.enum_def('fiber::FiberState')
+    res.bounds = {'handlers': 'any number < 2^16', 'fiber state': 'Running or Unwinding'}
+    res.assumptions = ['the fiber is Unwinding exactly between the unwinder\'s jump to a catch label and op_finish_unwind (pause_unwind / finish_unwind: C04.K2, C18.K1)',
+                       'op_check_handler discards the handler itself before raising its own errors and leaves the fiber in a state in which set_error does not discard another one']
+    e.models = [m_ for m_ in e.models if 'set_error' not in m_[2]]
+    e.havoc = [rx for rx in e.havoc if 'set_error' not in rx.pattern] + [re.compile(r'^(fiber::)?Fiber::set_error$')]
+
+    def path(e):
+        st = W.fresh_state(e)
+        uv = _setup_handlers(e, W, st, P)
+        unwinding = e.fork_bool(z3.Bool('fiber_is_unwinding'))
+        st.fiber.f[W.fib_idx['state']] = Cell(EnumV('fiber::FiberState', st_def.vindex['Unwinding' if unwinding else 'Running'], None, None, st_def))
+        e.add_constraint(z3.UGE(st.nh0, 1))
+        err = e.fresh('laythe_core::object::Instance', 'new_error')
+        try:
+            e.call(f, [Ref(st.vm_cell), err])
+        except PathEnd as pe:
+            if pe.kind not in ('vm_error',):
+                raise
+        if unwinding:
+            e.check(uv.len == st.nh0 - 1, 'set_error while unwinding: the handler whose clauses are being evaluated is discarded, the new error goes to the handlers outside it')
+        else:
+            e.check(uv.len == st.nh0, 'set_error on a running fiber leaves the handlers alone')
+        return {'unwinding': unwinding}
+    results = e.explore(path)
+    for r in results:
+        for lab, ok, info in list(r.checks):
+            if not ok and 'while unwinding' in lab:
+                res.fail('C04.K6:an error raised by a catch clause is delivered to the same handler again',
+                         'Vm::set_error keeps the innermost handler registered while the fiber is unwinding: an error raised while its catch clauses are evaluated '
+                         '(catch e: NotYetDefined) unwinds to the same catch label again, forever', info, replay=F44_REPLAY)
+                r.checks.remove((lab, ok, info))
+    _panics(res, results, 'C04.K6.set_error')
+    summarize_paths(res, e, results, lambda r: r.info if isinstance(r.info, dict) else None, key_prefix='C04.K6:', unwind_ok=False)
